@@ -73,6 +73,20 @@ Definition I_jexit (s : st) : Prop :=
             | _ => qmutex s <> Some c
             end.
 
+(** per-worker well-formedness: the clean flag is set exactly on the retirement tail, and the
+    worker holds what its label says *)
+Definition held_task (x : wst) : bool := match wheld x with Some (ITask _) => true | _ => false end.
+Definition held_sent (x : wst) : bool := match wheld x with Some ISent => true | _ => false end.
+Definition wf_w (x : wst) : bool :=
+  match wpc x with
+  | WUnlock3R => wclean x
+  | WFLock | WFRemove | WFNbDec | WFUnlock | WDead => true
+  | WSentDone => negb (wclean x) && held_sent x
+  | WLock1 | WActInc | WUnlock1 | WBegin | WBody | WTaskDone => negb (wclean x) && held_task x
+  | _ => negb (wclean x)
+  end.
+Definition I_wf (s : st) : Prop := forall w, wf_w (ws s w) = true.
+
 Lemma created_lt s w pc h c : I_created s -> ws s w = mkW pc h c -> pc <> WNone -> (w < next_w s)%nat.
 Proof.
   intros [Hc _] E Hn. destruct (Nat.lt_ge_cases w (next_w s)) as [|Hge]; [assumption|].
